@@ -15,7 +15,11 @@ class Rel:
         self.kind, self.table, self.alias, self.inner_alias, self.as_kw = kind, table, alias, inner_alias, as_kw
         self.cols = BASE[table]
 
+    fullqual = False  # spell references as schema.table.column (only for an un-aliased base table)
+
     def qual(self):
+        if self.fullqual and not self.alias:
+            return self.table
         return self.alias or self.table.split(".")[1]
 
     def from_text(self):
@@ -143,6 +147,11 @@ def union_sql(stmts):
     return sql, exp
 
 
+def _full(rel):
+    rel.fullqual = True
+    return rel
+
+
 def statements(thorough=False):
     """bounded-exhaustive family: every select-item kind x scope shape x naming mode (+ seeded extras in thorough mode)"""
     out = []
@@ -162,6 +171,8 @@ def statements(thorough=False):
         # a CTE whose name is the bare name of a real table of another schema-qualified relation in the statement
         "cte_named_like_table": [Rel("cte", "s1.ta", "tb"), Rel("table", "s1.tc", "z")],
         "alias_case": [Rel("table", "s1.ta", "Xa"), Rel("table", "s1.tb", "yB")],
+        "one_table_fullqual": [_full(Rel("table", "s1.ta"))],
+        "join2_fullqual": [_full(Rel("table", "s1.ta")), _full(Rel("table", "s1.tb"))],
     }
     for sname, rels in shapes.items():
         for kind in KINDS:
